@@ -16,6 +16,7 @@ package main
 // concurrent trimming under the controlled scheduler.
 
 import (
+	"errors"
 	"fmt"
 	"os"
 	"strings"
@@ -86,6 +87,11 @@ func c06RunHistory(c *vx.Ctx, p *vx.Part, prefix []*types.WorkObject, word []int
 			return nil, ""
 		}
 		blk, err := s.n.Build(s.opts(core.VBuildOpts{Order: 2, Fill: true}))
+		var refused core.VForeignRefused
+		if errors.As(err, &refused) {
+			p.Outcome("word-n/a:foreign-body-refused-by-Process")
+			return nil, ""
+		}
 		if err != nil {
 			return nil, "build: " + err.Error()
 		}
